@@ -138,6 +138,59 @@ def run_tlc_piped(name, module, cfg, harness_args, workers=None, timeout=1800, s
     return stats, hres
 
 
+def run_tlc_only(name, module, cfg, workers=4, timeout=600, heap="4g"):
+    """Runs TLC on spec/<module>.tla without a harness (specification-level checks); returns stats."""
+    wd = os.path.join(OUT, name)
+    shutil.rmtree(wd, ignore_errors=True)
+    os.makedirs(wd, exist_ok=True)
+    if "\n" in cfg:
+        cfg = write_cfg(name, module + ".cfg", cfg)
+    cmd = tlc_cmd(module + ".tla", cfg, os.path.join(wd, "meta"), workers, heap=heap)
+    t = time.time()
+    try:
+        r = subprocess.run(cmd, cwd=SPEC, stdout=subprocess.PIPE, stderr=subprocess.STDOUT, text=True, timeout=timeout)
+    except subprocess.TimeoutExpired:
+        raise ToolError("%s: TLC exceeded %ds" % (name, timeout))
+    stats = parse_tlc_log(r.stdout)
+    stats["wall_s"] = round(time.time() - t, 2)
+    stats["cmd"] = " ".join(cmd[cmd.index("tlc2.TLC"):]).replace("tlc2.TLC", "tlc")
+    shutil.rmtree(os.path.join(wd, "meta"), ignore_errors=True)
+    if not stats["ok"]:
+        sys.stdout.write(r.stdout[-3000:])
+        raise ToolError("%s: TLC did not complete cleanly on %s: %s" % (name, module, (stats["error"] or "")[:600]))
+    return stats
+
+
+def run_apalache(name, module, invs, cinit="CInit", length=0, timeout=600):
+    """Symbolic check of state invariants of spec/<module>.tla with Apalache (specification-level: the outcome says
+    something about the specification's own laws, never about the code).  Returns one record per invariant;
+    a violated invariant or a tool failure is a ToolError (the specification is wrong, not the code)."""
+    exe = shutil.which("apalache-mc")
+    if not exe:
+        return [{"inv": i if isinstance(i, str) else i[0], "outcome": "skipped: apalache-mc not on PATH"} for i in invs]
+    wd = os.path.join(OUT, name)
+    shutil.rmtree(wd, ignore_errors=True)
+    os.makedirs(wd, exist_ok=True)
+    res = []
+    for item in invs:
+        inv, init, length = (item, None, length) if isinstance(item, str) else item
+        cmd = [exe, "check", "--cinit=" + cinit] + (["--init=" + init] if init else []) + \
+              ["--inv=" + inv, "--length=%d" % length, "--out-dir=" + os.path.join(wd, "apa"), os.path.join(SPEC, module + ".tla")]
+        t = time.time()
+        try:
+            r = subprocess.run(cmd, cwd=wd, stdout=subprocess.PIPE, stderr=subprocess.STDOUT, text=True, timeout=timeout)
+        except subprocess.TimeoutExpired:
+            raise ToolError("%s: apalache-mc exceeded %ds on %s" % (name, timeout, inv))
+        ok = "The outcome is: NoError" in r.stdout and r.returncode == 0
+        if not ok:
+            sys.stdout.write(r.stdout[-2500:])
+            raise ToolError("%s: Apalache does not confirm %s of %s (a specification-level failure)" % (name, inv, module))
+        res.append({"inv": inv, "outcome": "NoError", "wall_s": round(time.time() - t, 1),
+                    "cmd": "apalache-mc check --cinit=%s%s --inv=%s --length=%d %s.tla" % (cinit, " --init=" + init if init else "", inv, length, module)})
+        shutil.rmtree(os.path.join(wd, "apa"), ignore_errors=True)
+    return res
+
+
 def run_harness(name, harness_args, timeout=3600, stdin_path=None):
     wd = os.path.join(OUT, name)
     os.makedirs(wd, exist_ok=True)
